@@ -70,3 +70,13 @@ pub fn factory_drain(a: &Args) {
     let out = rt.block_on(fp::drain_step(a.u64("draining") == 1, &busy, a.usize("queued"), a.str("msg")));
     println!("out={}", out.replace('=', "~"));
 }
+
+/// factory_queuer sticky=0|1 busy=<wids> deque=<wids> queued=<n> op=<dispatch|finished:<wid>>
+pub fn factory_queuer(a: &Args) {
+    use ractor::factory::factoryimpl::verif_probe as fp;
+    let rt = tokio::runtime::Builder::new_current_thread().enable_time().build().unwrap();
+    let busy: Vec<usize> = a.list_u128("busy").iter().map(|x| *x as usize).collect();
+    let deque: Vec<usize> = a.list_u128("deque").iter().map(|x| *x as usize).collect();
+    let out = rt.block_on(fp::queuer_step(a.u64("sticky") == 1, &busy, &deque, a.usize("queued"), a.str("op")));
+    println!("out={}", out.replace('=', "~"));
+}
